@@ -202,7 +202,7 @@ ADDED = {
 
 # round 12 and the lock-level model
 ADDED12 = {
-    "C07": (" + TLC model checking of MwLock.tla (explicit RWMutex: refinement of Middleware.tla, lock discipline, deadlock freedom, termination under fairness) with the recorded gate sequences checked against its lock program",
+    "C07": (" + TLC model checking of MwLock.tla (explicit RWMutex: refinement of Middleware.tla, lock discipline, deadlock freedom, termination under fairness) with the recorded gate sequences checked against its lock program + Apalache: the lock discipline as an inductive invariant (MwLockInductive.tla)",
             " Round 12: MwLock.tla makes the RWMutex explicit (readers, writer, announced writers that keep new readers out) and lets the wrapped handler call back into its own "
             "middleware; TLC checks that it REFINES Middleware.tla (PROPERTY MW!Spec), keeps no lock across validation / rendering / w.Header() / the handler, cannot deadlock and, "
             "under weak fairness, that every started call returns; twins holdAcross (rejected by LockFreeOutside and, without it, by deadlock) and checkThenAct (rejected by the "
